@@ -49,7 +49,7 @@ abbrev MCtx := List (String × STy)
     typecheck/generalize.rs) stands for the set of all instances of `τ` (`SurfTyCheck.den`). -/
 abbrev Sch := STy → Prop
 
-/-- the scheme of a lambda-/pattern-bound name: exactly one type -/
+/-- the scheme of a lambda-bound or pattern-bound name: exactly one type -/
 def Sch.mono (τ : STy) : Sch := fun t => t = τ
 
 /-- contexts map names to schemes (`Environment` + `stack_var` of check/src/typecheck.rs:330) -/
